@@ -158,6 +158,50 @@ def nd_stream(ctx, n):
     ctx.notes["nd_known_finding_hits"] = bad
 
 
+def grid_stream(ctx, n):
+    """vectorised parameters on different axes (axes=): every grid point of the Jacobian must be the derivative of the
+    scalar simulation at that grid point (central differences of scalar re-runs)"""
+    import epgpy as epg
+    for i in range(n):
+        na, nt = ctx.rng.choice([(2, 2), (3, 3), (2, 3), (3, 2), (1, 3)])
+        alphas = [float(ctx.rng.choice([20., 35., 50., 75., 100.])) + 3 * j for j in range(na)]
+        T2s = [float(ctx.rng.choice([30., 50., 80.])) + 7 * j for j in range(nt)]
+        phi, tau, a2 = float(ctx.rng.choice([0., 30., 90.])), float(ctx.rng.choice([4., 9.])), float(ctx.rng.choice([40., 120.]))
+        case = {"alphas": alphas, "T2s": T2s, "phi": phi, "tau": tau, "a2": a2}
+
+        def seq(al, t2, diff, vec):
+            kwa = {"order1": "alpha"} if diff else {}
+            kwt = {"order1": "T2"} if diff else {}
+            if vec:
+                return [epg.T(np.array(al), phi, axes=1, **kwa), epg.S(1), epg.E(tau, 900.0, np.array(t2), 0.01, **kwt),
+                        epg.T(a2, 10.0), epg.S(-1), epg.ADC]
+            return [epg.T(al, phi, **kwa), epg.S(1), epg.E(tau, 900.0, t2, 0.01, **kwt), epg.T(a2, 10.0), epg.S(-1), epg.ADC]
+        try:
+            jac = np.asarray(epg.simulate(seq(alphas, T2s, True, True), probe=epg.Jacobian(["alpha", "T2"])))
+            jac = jac.reshape(nt, na, 2) if jac.size == 2 * nt * na else None   # (..., variables last)
+        except Exception as e:
+            ctx.report("vectorised Jacobian (axes=) raised %s: %s" % (type(e).__name__, str(e)[:160]), {"grid": case}, found_input=True,
+                       signature={"site": "axes", "why": "raises"})
+            continue
+        ctx.cov["grid_runs"] = ctx.cov.get("grid_runs", 0) + 1
+        ctx.count(("grid", repr(case)))
+        if jac is None:
+            ctx.report("vectorised Jacobian (axes=) has the wrong shape", {"grid": case}, found_input=True, signature={"site": "axes", "why": "shape"})
+            continue
+        bad = None
+        for it in range(nt):
+            for ia in range(na):
+                f = lambda al, t2: np.ravel(np.asarray(epg.simulate(seq(al, t2, False, False))))[0]
+                h = 1e-3
+                da = (f(alphas[ia] + h, T2s[it]) - f(alphas[ia] - h, T2s[it])) / (2 * h)
+                dt = (f(alphas[ia], T2s[it] + h) - f(alphas[ia], T2s[it] - h)) / (2 * h)
+                if abs(jac[it, ia, 0] - da) > 1e-7 + 1e-5 * abs(da) or abs(jac[it, ia, 1] - dt) > 1e-7 + 1e-5 * abs(dt):
+                    bad = (it, ia, jac[it, ia, 0], da, jac[it, ia, 1], dt)
+        if bad:
+            ctx.report("grid point (T2 index %d, alpha index %d): Jacobian (%s, %s) but scalar finite differences give (%s, %s)" % (
+                bad[0], bad[1], bad[2], bad[4], bad[3], bad[5]), {"grid": case}, found_input=True, signature={"site": "axes", "why": "jacobian-vs-fd"})
+
+
 def run(ctx):
     proved = ctx.prove(gen=True)
     quick = ctx.tier == "quick"
@@ -217,6 +261,7 @@ def run(ctx):
                            {"params": par, "variable": v}, found_input=True, signature={"jacobian-vs-fd": v})
     known_witnesses(ctx)
     nd_stream(ctx, 40 if quick else 1200)
+    grid_stream(ctx, 6 if quick else 150)
     ctx.cov["trusted_base"] += [
         "translator (Gen/Transition.v, Gen/Evolution.v) validated by the Interval tie at %d function-points" % nok,
         "hand-written bookkeeping model Model/Diff.v tied to epgpy/diff.py by exact correspondence of sm.order1 after every operator",
